@@ -267,6 +267,7 @@ class World:
         self.metric_objects: dict[int, Any] = {}
         self.memory_loggers: dict[str, Any] = {}
         self.gc_on_exit = False
+        self.late_loggers: list[Any] = []
         self.exit_snapshot: dict[str, dict[str, bool]] = {}  # block -> {task spawned into it: done() at the instant the block was left}
         self.capture = LogCapture()
         self.uid = 10_000
@@ -319,7 +320,12 @@ class World:
                         capture.handle(record)
 
                 return self.memory_loggers.setdefault(value, MemoryLogger(value))
-            return logging.getLogger(value)
+            lg = logging.getLogger(value)
+            if ".late" in value:
+                # debug output of this logger is switched on only after the scope that uses it was created
+                lg.setLevel(logging.WARNING)
+                self.late_loggers.append(lg)
+            return lg
         return value
 
     def tick(self) -> int:
@@ -657,6 +663,9 @@ async def run_block(W: World, block: dict[str, Any], rng: random.Random | None) 
         W.block_phase[name] = "body"
         W.live[name] = (id(asyncio.current_task()), {t for t, _ in block["supply"]})
         W.event("body-start", name)
+        for lg in W.late_loggers:
+            lg.setLevel(logging.DEBUG)  # logging is (re)configured while scopes are alive
+        W.late_loggers.clear()
         if block.get("convert_cancel"):
             # user code that answers a cancellation of its body with an error of its own
             try:
